@@ -170,6 +170,14 @@ fn replay(cfg: &Cfg, path: &std::path::Path) {
 }
 
 pub fn run(cfg: &Cfg) {
+    // (soak of the text reader alone: ITV_TEXT_SOAK=<cases>)
+    if let Some(n) = std::env::var("ITV_TEXT_SOAK").ok().and_then(|x| x.parse::<usize>().ok()) {
+        let mut sink = Sink::new(&cfg.out);
+        let mut r = Rng::new(cfg.seed ^ 0x7e57);
+        crate::textgen::run_text_cases(&mut sink, &mut r, n);
+        sink.finish(&cfg.out, serde_json::json!({}));
+        return;
+    }
     if let Some(p) = &cfg.replay {
         return replay(cfg, p);
     }
